@@ -91,6 +91,9 @@ def probe_module(i, d, table, want):
     for l in plain_hooks(d):
         emit(l)
     meth = {(m[0], m[1]): m for m in table['m']}
+    if len(leaves) > 40:       # very wide machines: both ends and the byte boundary
+        pick = lambda l: list(dict.fromkeys(l[:3] + l[62:66] + l[254:258] + l[-3:]))
+        leaves, events = pick(leaves), pick(events)
     aw = '.await' if is_async else ''
     af = 'async fn' if is_async else 'fn'
     if 'methods' in want:
